@@ -18,7 +18,8 @@ structure St where
   f : List String                     -- the case line fields (structured settings)
   bytes : Array Nat := #[]            -- bytes of the current connection
   reqOffsets : List Nat := []         -- byte offsets at which a test recording was requested (reversed)
-  prev : List (Array Nat × List Nat) := []   -- earlier connections of this case (reversed): bytes, request offsets
+  wins : List (Nat × Bool) := []      -- byte offsets at which the recording window opened / closed (reversed)
+  prev : List (Array Nat × List Nat × List (Nat × Bool)) := []   -- earlier connections of this case (reversed)
   dead : Bool := false
 
 def init (f : List String) : St := { f := f }
@@ -87,8 +88,10 @@ structure Frz where           -- an accepted frame frozen into arrays
   tel : Parse.Telemetry
 
 /-- run all items; test requests take effect before the first item that ends after their offset -/
-def runItems (c : PipeCfg) (items : List Socket.Item) (reqs : List Nat) (fsize : Nat) :
+def runItems (c0 : PipeCfg) (items : List Socket.Item) (reqs : List Nat) (wins : List (Nat × Bool)) (fsize : Nat) :
     Pipe DetStream.ieee × Array Frz × Array (Array Nat) := Id.run do
+  let mut c := c0
+  let mut pendingW := wins
   let mut p := Pipe.init DetStream.ieee c
   let mut pos := 0
   let mut pending := reqs
@@ -96,6 +99,13 @@ def runItems (c : PipeCfg) (items : List Socket.Item) (reqs : List Nat) (fsize :
   let mut bgs : Array (Array Nat) := #[]       -- background snapshot per started file, in start order
   for it in items do
     let endPos := pos + (match it with | .clear => 5 | .frame _ => fsize)
+    -- the recording window opens / closes (the clock passes a boundary) before the first item that ends after the change
+    let dueW := pendingW.filter (·.1 < endPos)
+    match dueW.getLast? with
+    | some (_, v) =>
+      c := { c with windowOpen := v }
+      pendingW := pendingW.filter (·.1 ≥ endPos)
+    | none => pure ()
     let due := pending.filter (· < endPos)
     if !due.isEmpty then
       p := Pipe.testRequest c p
@@ -146,7 +156,7 @@ structure ConnOut where
   unfinishedConst : Nat
 
 /-- one camera connection: how it ends, the camera it announced, the finished files it leaves -/
-def runConn (f : List String) (bytes : Array Nat) (reqOffsets : List Nat) : ConnOut :=
+def runConn (f : List String) (bytes : Array Nat) (reqOffsets : List Nat) (wins : List (Nat × Bool) := []) : ConnOut :=
   match Socket.readHeader bytes.toList with
   | none => { lines := ["conn header-error true", "header none"], mainFiles := [], constFiles := [],
               unfinishedMain := 0, unfinishedConst := 0 }
@@ -156,7 +166,8 @@ def runConn (f : List String) (bytes : Array Nat) (reqOffsets : List Nat) : Conn
     let (items, ending) := Socket.parseFrames h.fsize (rest.length + 2) rest
     let hdrLen := bytes.size - rest.length
     let reqs := reqOffsets.reverse.map (· - hdrLen)
-    let (p, frozen, bgs) := runItems c items reqs h.fsize
+    let winsRel := if kvN f "windowset" == 1 then wins.reverse.map (fun (o, v) => (o - hdrLen, v)) else []
+    let (p, frozen, bgs) := runItems c items reqs winsRel h.fsize
     let files := p.files.reverse
     let idx := (List.range files.length).zip files
     let sel (pred : RecFile → Bool) := idx.filter fun (_, fl) => pred fl
@@ -174,7 +185,7 @@ def runConn (f : List String) (bytes : Array Nat) (reqOffsets : List Nat) : Conn
 
 /-- the whole case: every connection in order; files of all connections accumulate in the output directory -/
 def finish (st : St) : List String :=
-  let conns := (st.prev.reverse ++ [(st.bytes, st.reqOffsets)]).map fun (b, r) => runConn st.f b r
+  let conns := (st.prev.reverse ++ [(st.bytes, st.reqOffsets, st.wins)]).map fun (b, r, wn) => runConn st.f b r wn
   let last := conns.getLast?.map (·.lines) |>.getD []
   let mains := conns.flatMap (·.mainFiles)
   let consts := conns.flatMap (·.constFiles)
@@ -193,9 +204,10 @@ def step (st : St) (bl : Block) : St × List String :=
   match bl.op with
   | ["b", _, hex] => ({ st with bytes := st.bytes ++ WriterStream.parseHexBytes hex }, [])
   | ["t"] => ({ st with reqOffsets := st.bytes.size :: st.reqOffsets }, [])
+  | ["win", v] => ({ st with wins := (st.bytes.size, v == "1") :: st.wins }, [])
   | ["n"] =>
-    let out := (runConn st.f st.bytes st.reqOffsets).lines
-    ({ st with prev := (st.bytes, st.reqOffsets) :: st.prev, bytes := #[], reqOffsets := [] }, out)
+    let out := (runConn st.f st.bytes st.reqOffsets st.wins).lines
+    ({ st with prev := (st.bytes, st.reqOffsets, st.wins) :: st.prev, bytes := #[], reqOffsets := [], wins := [] }, out)
   | ["end"] => (st, finish st)
   | _ => (st, ["bad-op"])
 
@@ -258,9 +270,18 @@ def monStep' (m : MSt) (bl : Block) : MSt × List String :=
       let c04 := (gateVariants m.st.f).filterMap fun (nm, f') =>
         if f' != m.st.f && (finish { m.st with f := f' }).map fields == got
         then some s!"prop=C04 reason=recordings-are-those-expected-if-{nm}" else none
-      (m', c :: thr ++ c04)
+      -- the continuous recorder's files (C17) / a test recording's file count (main directory holds both kinds)
+      let e' := if e.isEmpty then g else e
+      let c17 := if e'.getD 1 "" == "const" then ["prop=C17 reason=continuous-recording-files-differ-from-the-tiling-of-the-stream"] else []
+      -- C15: what is stored with a recording (threshold in the header's motion settings, background frame) must be the
+      -- detector's at the trigger
+      let c15 := if (e'.headD "" == "file" && g.length == e'.length &&
+                      ((e'.zip g).filter fun (a, b) => a != b).all fun (a, _) => a.startsWith "motion=")
+                    || (e'.headD "" == "fr" && e'.contains "bg=1")
+        then ["prop=C15 reason=threshold-or-background-stored-with-the-recording-is-not-the-one-in-force-at-its-trigger"] else []
+      (m', c :: thr ++ c04 ++ c17 ++ c15)
   | ["n"] =>
-    let exp := ((runConn m.st.f m.st.bytes m.st.reqOffsets).lines).map fields
+    let exp := ((runConn m.st.f m.st.bytes m.st.reqOffsets m.st.wins).lines).map fields
     if exp == bl.outs then ({ m with st := st' }, [])
     else ({ m with st := st' }, [classify (exp.headD []) []])
   | _ => ({ m with st := st' }, [])
